@@ -240,6 +240,11 @@ func checkC10(cx *Ctx, r *Report) {
 	}
 	sort.Slice(fns, func(i, j int) bool { return w.FuncKey(fns[i]) < w.FuncKey(fns[j]) })
 	nStorage := cx.checkErrDiscipline(r, fns)
+	// every storage operation the property names is still called from handler-reachable code (a call that vanished
+	// - `return nil` instead of `return storage.Health(ctx)` - cannot fail any more, and cannot be checked here)
+	for _, m := range []string{"GetEntityByID", "CreateAuthRequest", "AuthRequestByID", "GetEntityIDByAppID", "SetUserinfoWithUserID", "SetUserinfoWithLoginName", "GetResponseSigningKey", "GetMetadataSigningKey", "Health"} {
+		r.Check(w.scopeHasCall(scope, matchStorage(m)), "R-WHO", "storage-call:"+m, "", "called from handler-reachable code", "Storage."+m+" is no longer called from handler-reachable code: its failure cannot end a request in an error reply because it is never asked")
+	}
 	r.Check(nStorage >= 9, "R-ERR", "#storage-sites", "", fmt.Sprintf("%d storage call sites in handler-reachable code", nStorage), fmt.Sprintf("only %d storage call sites found in handler-reachable code (9 on the pinned tree): a site has become unreachable for the analysis", nStorage))
 
 	// --- callbacks are error replies -----------------------------------------------------
